@@ -24,11 +24,14 @@ def _is_lib(obj):
     return type(obj).__module__.split('.')[0] == 'cryptoparser'
 
 
-def _leaf(obj):
+def _leaf(obj, strict_types=False):
     if isinstance(obj, datetime.datetime):
         if obj.tzinfo is None:
-            return ('datetime-naive', obj.isoformat())
-        return ('datetime-aware', obj.astimezone(UTC).isoformat())
+            if strict_types:
+                return ('datetime-naive', obj.isoformat())
+            # the library's convention is naive == UTC (timestamps, HTTP dates are composed as GMT)
+            return ('datetime', obj.replace(tzinfo=UTC).isoformat())
+        return ('datetime-aware' if strict_types else 'datetime', obj.astimezone(UTC).isoformat())
     if isinstance(obj, datetime.timedelta):
         return ('timedelta', obj.total_seconds())
     for projection in ('der', ):
@@ -98,7 +101,7 @@ def deep_state(obj, strict_types=False, _stack=None):
                     continue
                 fields.append((name, deep_state(extra[name], strict_types, _stack)))
             return ('obj', type(obj).__module__ + '.' + type(obj).__qualname__, tuple(fields))
-        return _leaf(obj)
+        return _leaf(obj, strict_types)
     finally:
         _stack.discard(id(obj))
 
@@ -107,8 +110,19 @@ def equal(left, right):
     return deep_state(left) == deep_state(right)
 
 
-def diff_path(state_a, state_b, path=''):
-    """First path at which two deep_state() trees differ, with indices elided ('[]')."""
+def diff_locus(state_a, state_b):
+    """(class name of the innermost library object that contains the first difference, path relative to
+    that object with indices elided). Class name is None when the difference is above any object."""
+    result = _diff(state_a, state_b, None, '')
+    return result if result is not None else (None, '')
+
+
+def diff_path(state_a, state_b):
+    holder, path = diff_locus(state_a, state_b)
+    return '%s%s' % (holder.split('.')[-1] if holder else '', path or '<root>')
+
+
+def _diff(state_a, state_b, holder, path):  # pylint: disable=too-many-return-statements,too-many-branches
     if state_a == state_b:
         return None
     if (isinstance(state_a, tuple) and isinstance(state_b, tuple) and len(state_a) >= 2 and len(state_b) >= 2
@@ -116,35 +130,35 @@ def diff_path(state_a, state_b, path=''):
         kind = state_a[0]
         if kind == 'obj':
             if state_a[1] != state_b[1]:
-                return path + '<type:%s!=%s>' % (state_a[1].split('.')[-1], state_b[1].split('.')[-1])
+                return holder, path + '<type:%s!=%s>' % (state_a[1].split('.')[-1], state_b[1].split('.')[-1])
             fields_a, fields_b = dict(state_a[2]), dict(state_b[2])
             for name in fields_a:
                 if name not in fields_b:
-                    return path + '.' + name + '<missing>'
-                sub = diff_path(fields_a[name], fields_b[name], path + '.' + name)
+                    return state_a[1], '.' + name + '<missing>'
+                sub = _diff(fields_a[name], fields_b[name], state_a[1], '.' + name)
                 if sub:
                     return sub
             for name in fields_b:
                 if name not in fields_a:
-                    return path + '.' + name + '<extra>'
-            return path
+                    return state_a[1], '.' + name + '<extra>'
+            return holder, path
         if kind in ('seq', 'list', 'tuple') and isinstance(state_a[1], tuple) and isinstance(state_b[1], tuple):
             if len(state_a[1]) != len(state_b[1]):
-                return path + '[]<len>'
+                return holder, path + '[]<len>'
             for item_a, item_b in zip(state_a[1], state_b[1]):
-                sub = diff_path(item_a, item_b, path + '[]')
+                sub = _diff(item_a, item_b, holder, path + '[]')
                 if sub:
                     return sub
-            return path
+            return holder, path
         if kind in ('odict', 'dict') and len(state_a[1]) == len(state_b[1]):
             for (key_a, val_a), (key_b, val_b) in zip(state_a[1], state_b[1]):
                 if key_a != key_b:
-                    return path + '{}<key>'
-                sub = diff_path(val_a, val_b, path + '{}')
+                    return holder, path + '{}<key>'
+                sub = _diff(val_a, val_b, holder, path + '{}')
                 if sub:
                     return sub
-            return path
-    return path or '<root>'
+            return holder, path
+    return holder, path or '<root>'
 
 
 def owner_of_field(cls, path):
